@@ -245,6 +245,14 @@ def _ew_shard(args):
 
 
 def replay(ctx, case):
+    if case.get("kind") == "scale_record":
+        from . import c08
+
+        req = dict(case["req"])
+        for k_ in ("k", "dil"):
+            req[k_] = tuple(req[k_])
+        n, bad = c08._req_shard([req])
+        return [p_ for _, probs in bad for p_ in probs if "multiplier" in p_ or "encode failed" in p_]
     core.bind_repo(need_codec=False)
     from ethosu.vela import scaling
 
@@ -295,6 +303,24 @@ def run(ctx):
                 seen_keys.add(key)
                 ctx.violation(key, "%s(%r) returned %s, expected %s" % (fn, float(f32((E << 23) | mant)), got, exp), dict(kind="f32", fn=fn, E=E, mant=mant, as_float=as_float))
     ctx.count("f32_calls", total)
+    # per-channel scale records as stored for the hardware (weight_compressor._prepare_scale_and_bias picks the derivation by operator
+    # kind and data type): every (kind, data type, per-channel, converted-convolution) class through the real tensor assembly
+    from . import c08
+
+    seenr = set()
+    reqs = []
+    for r in c08.requests("quick"):
+        k = (r["kind"], r["dt"], r["per_channel"], bool(r.get("as_conv")), r["acc"] if r.get("as_conv") else "-")
+        if k not in seenr and r["depth"] in (8, 17):
+            seenr.add(k)
+            reqs.append(r)
+    for n, bad in pmap(c08._req_shard, [reqs[i:i + 4] for i in range(0, len(reqs), 4)]):
+        ctx.count("scale_record_requests", n)
+        for req, probs in bad:
+            probs = [p_ for p_ in probs if "multiplier" in p_ or "encode failed" in p_]
+            if probs:
+                ctx.violation("scale-record|%s|%s|%s%s" % (req["kind"], req["dt"], "per-channel" if req["per_channel"] else "per-tensor", "|conv-as-fc" if req.get("as_conv") else ""),
+                              "%s  [%s]" % (probs[0], {k_: req[k_] for k_ in ("kind", "dt", "per_channel", "acc", "depth")}), dict(kind="scale_record", req=req))
     # float64: every exponent
     sh64 = [(e, min(e + 64, 2047)) for e in range(1, 2047, 64)]
     for n, bad in pmap(_f64_shard, sh64):
